@@ -200,7 +200,8 @@ class Cont(Rec):     # id, kind ('pkg' | 'comp'), name, parent (container id or 
     pass
 
 
-class DT(Rec):       # id, name, kind ('core'|'enum'|'user'|'other'), core_typ, base, enums [[id, name]...] in R56 order, home
+class DT(Rec):       # id, name, kind ('core'|'enum'|'user'|'struct'|'other'), core_typ, base, enums [[id, name]...] in R56 order, home
+    # kind 'struct' (S_SDT) only: members [[id, name, dt]...] in R46 order
     pass
 
 
@@ -314,7 +315,8 @@ class Diagram(object):
             return (e.cls, e.mult, e.cond, e.phrase, e.oir, getattr(e, 'oid', None), tuple(sorted(e.keys)))
         conts = tuple(sorted((c.id, c.kind, c.name, c.parent) for c in self.conts.values())) + \
             tuple(sorted(('ref', r, p) for r, p in self.pkgrefs))
-        types = tuple(sorted((t.id, t.name, t.kind, t.core_typ, t.base, tuple(map(tuple, t.enums)), t.home)
+        types = tuple(sorted((t.id, t.name, t.kind, t.core_typ, t.base, tuple(map(tuple, t.enums)), t.home) +
+                             ((tuple(map(tuple, getattr(t, 'members', []))),) if t.kind == 'struct' else ())
                              for t in self.types.values()))
         classes = tuple(sorted((c.id, c.name, c.kl, c.home,
                                 tuple((a.id, a.name, a.kind, a.dt, a.base) for a in c.attrs),
@@ -452,6 +454,7 @@ def extract(T):
     cdt = dict((r.DT_ID, r.Core_Typ) for r in T('S_CDT'))
     edt = set(r.DT_ID for r in T('S_EDT'))
     udt = dict((r.DT_ID, nz(r.CDT_DT_ID)) for r in T('S_UDT'))
+    sdt = set(r.DT_ID for r in T('S_SDT'))
     for r in T('S_DT'):
         t = DT(id=r.DT_ID, name=r.Name, kind='other', core_typ=None, base=None, enums=[], home=pe.get(r.DT_ID))
         if r.DT_ID in cdt:
@@ -462,6 +465,11 @@ def extract(T):
             t.enums = [[e.Enum_ID, e.Name] for e in _chain(mine, lambda e: e.Enum_ID, lambda e: e.Previous_Enum_ID)]
         elif r.DT_ID in udt:
             t.kind, t.base = 'user', udt[r.DT_ID]
+        elif r.DT_ID in sdt:
+            t.kind = 'struct'
+            mine = [m for m in T('S_MBR') if m.Parent_DT_DT_ID == r.DT_ID]
+            t.members = [[m.Member_ID, m.Name, nz(m.DT_ID)]
+                         for m in _chain(mine, lambda m: m.Member_ID, lambda m: m.Previous_Member_ID)]
         d.types[t.id] = t
 
     battr = set((r.Attr_ID, r.Obj_ID) for r in T('O_BATTR'))
@@ -645,6 +653,8 @@ def expected_xsd(d, component):
             b = d.types.get(t.base)
             if b is not None and (b.kind in ('enum', 'user') or (b.kind == 'core' and b.core_typ in CORE_SUPPORTED)):
                 types.append((t.name, b.name, ()))
+        # (structured data types, instance references and the other kinds are unsupported: no simple type, and -- via
+        #  xsd_base_type -- no attribute for anything typed by them, directly or through user types)
     classes = {}
     for c in d.classes:
         if not d.contained(c.home, component) or component is None:
@@ -994,9 +1004,19 @@ def rows_type(t, d):
             out += rows_enum(t, i)
     elif t.kind == 'user':
         out.append(mkrow('S_UDT', DT_ID=t.id, CDT_DT_ID=t.base, Gen_Type=0, Definition=''))
+    elif t.kind == 'struct':
+        out.append(mkrow('S_SDT', DT_ID=t.id))
+        for i in range(len(t.members)):
+            out += rows_member(t, i)
     else:
         raise Unsupported('cannot synthesise a %s type' % t.kind)
     return out
+
+
+def rows_member(t, i):
+    m = t.members[i]
+    return [mkrow('S_MBR', Member_ID=m[0], Name=m[1], Descrip='', Parent_DT_DT_ID=t.id, DT_ID=m[2],
+                  Previous_Member_ID=t.members[i - 1][0] if i else 0, Dimensions='')]
 
 
 def rows_attr(c, a, prev, d):
@@ -1155,6 +1175,14 @@ class Builder(object):
 
     def user(self, name, base, home):
         t = DT(id=self.new_id(), name=name, kind='user', core_typ=None, base=base, enums=[], home=home)
+        self.d.types[t.id] = t
+        return t.id
+
+    def struct(self, name, members, home):
+        '''Structured data type (S_SDT); members: [(name, type name or id)...] in R46 order.'''
+        t = DT(id=self.new_id(), name=name, kind='struct', core_typ=None, base=None, enums=[], home=home, members=[])
+        for n, ty in members:
+            t.members.append([self.new_id(), n, self.dt(ty) if isinstance(ty, str) else ty])
         self.d.types[t.id] = t
         return t.id
 
@@ -1436,6 +1464,13 @@ class World(object):
         self.d.types[t.id] = t
         self.insert_after_last('S_ENUM', rows_type(t, self.d))
 
+    def e_add_struct(self, name, members, home):
+        '''members: [[name, data type id]...]'''
+        t = DT(id=self.new_id('sdt', name), name=name, kind='struct', core_typ=None, base=None, enums=[], home=home,
+               members=[[self.new_id('mbr', name, n), n, dt] for n, dt in members])
+        self.d.types[t.id] = t
+        self.insert_after_last('S_DT', rows_type(t, self.d))
+
     def e_add_pkgref(self, referring, referred):
         self.d.pkgrefs.append((referring, referred))
         self.insert_after_last('EP_PKGREF', rows_pkgref(referring, referred))
@@ -1479,8 +1514,9 @@ OWNER = {
     'O_ATTR': 'Obj_ID', 'O_BATTR': 'Obj_ID', 'O_NBATTR': 'Obj_ID', 'O_DBATTR': 'Obj_ID', 'O_RATTR': 'Obj_ID',
     'O_OIDA': 'Obj_ID', 'O_ID': 'Obj_ID', 'O_REF': 'Rel_ID', 'O_RTIDA': 'Rel_ID', 'R_OIR': 'Rel_ID',
     'R_RGO': 'Rel_ID', 'R_RTO': 'Rel_ID', 'R_SUB': 'Rel_ID', 'S_ENUM': 'EDT_DT_ID', 'R_PART': 'Rel_ID',
+    'S_MBR': 'Parent_DT_DT_ID',
 }
-WHOLE_EXTRA = ('EP_PKGREF',)
+WHOLE_EXTRA = ('EP_PKGREF', 'S_SDT')
 WHOLE = ('O_OBJ', 'R_REL', 'S_DT', 'EP_PKG', 'C_C', 'S_UDT', 'S_EDT', 'R_SIMP', 'R_ASSOC', 'R_SUBSUP', 'R_FORM',
          'R_AONE', 'R_AOTH', 'R_ASSR', 'R_SUPER')
 
@@ -1627,6 +1663,41 @@ def packaging_diagram():
     return b.d
 
 
+def structs_diagram():
+    '''
+    Structured data types (S_SDT with S_MBR members in R46 order) in every scope -- inside the component, global, inside
+    a sibling component --, one with members of enumeration / structured / user type; user types based on a structure,
+    on a user type based on a structure and on a core type; class attributes typed by each of them, an identifier made
+    of a structure-typed attribute with a referential attribute referring to it, next to ordinary attributes.
+    '''
+    b = Builder()
+    top = b.package('Top')
+    comp = b.component('Comp', top)
+    classes = b.package('Classes', comp)
+    types = b.package('Types', comp)
+    other = b.component('Other', top)
+    opkg = b.package('OtherTypes', other)
+    colour = b.enum('Colour', ['Red', 'Green'], types)
+    span = b.user('Span', b.dt('integer'), types)
+    position = b.struct('Position', [('x', 'real'), ('y', 'real'), ('tint', colour)], types)
+    segment = b.struct('Segment', [('from', position), ('to', position), ('len', span)], types)
+    gpoint = b.struct('GPoint', [('a', 'integer')], top)
+    b.struct('Empty', [], types)
+    hidden = b.struct('HiddenStruct', [('h', 'string')], opkg)
+    location = b.user('Location', position, types)
+    place = b.user('Place', location, types)
+    b.user('GPlace', gpoint, top)
+    A = b.cls('A', classes, [('Id', 'unique_id'), ('Pos', position), ('Home', location), ('Where', place), ('Col', colour),
+                             ('G', gpoint), ('Len', span), ('Far', hidden), ('Name', 'string')],
+              {0: ['Id'], 1: ['Pos']})
+    B = b.cls('B', classes, [('Id', 'unique_id'), ('Seg', segment), ('Total', position, 'derived')])
+    C = b.cls('C', classes, [('Id', 'unique_id'), ('Count', 'integer')])
+    b.simple(1, classes, (B, 1, 1, ''), (A, 0, 0, ''), ['A_Pos'], oid=1)        # B.A_Pos refers to the structure-typed A.Pos
+    b.simple(2, classes, (C, 1, 1, ''), (A, 0, 1, ''), ['A_Id'])
+    b.cls('X', opkg, [('Id', 'unique_id'), ('H', hidden)])
+    return b.d
+
+
 def family():
     '''
     Small diagrams, one relationship each: simple and linked relationships with all 16
@@ -1701,6 +1772,8 @@ def base_world(name):
             _BASES[name] = world_of_diagram(rich_diagram())
         elif name == 'pack':
             _BASES[name] = world_of_diagram(packaging_diagram())
+        elif name == 'structs':
+            _BASES[name] = world_of_diagram(structs_diagram())
         elif name == 'regen:simple':
             # the abstraction of the real model, written back as rows by rows(diagram)
             _BASES[name] = world_of_diagram(base_world('simple').d)
@@ -2000,8 +2073,12 @@ LIVE_KINDS = ('rename_attr', 'retype_attr', 'move_elem', 'enum_add', 'set_end', 
               'rename_comp', 'set_derived')
 
 
-def live_supported(op):
-    return op[0] in LIVE_KINDS
+# live forms that only C20 applies (C14's live family keeps LIVE_KINDS)
+LIVE_KINDS_ATTR = LIVE_KINDS + ('add_attr',)
+
+
+def live_supported(op, kinds=LIVE_KINDS):
+    return op[0] in kinds
 
 
 def _pick(mm, kind, **cond):
@@ -2063,6 +2140,25 @@ def live_apply(mm, before, after, op):
         xtuml.delete(_pick(mm, old, Attr_ID=op[2], Obj_ID=op[1]))
         inst = mm.new(new)
         xtuml.relate(inst, _pick(mm, 'O_BATTR', Attr_ID=op[2], Obj_ID=op[1]), 107)
+    elif name == 'add_attr':
+        c = after.cls(op[1])
+        pos = op[2]
+        a = c.attrs[pos]
+        prev = _pick(mm, 'O_ATTR', Attr_ID=c.attrs[pos - 1].id, Obj_ID=c.id) if pos > 0 else None
+        nxt = _pick(mm, 'O_ATTR', Attr_ID=c.attrs[pos + 1].id, Obj_ID=c.id) if pos + 1 < len(c.attrs) else None
+        inst = mm.new('O_ATTR', Attr_ID=a.id, Name=a.name, Descrip='', Prefix='', Root_Nam=a.name, Pfx_Mode=0, Dimensions='',
+                      DefaultValue='')
+        xtuml.relate(inst, _pick(mm, 'O_OBJ', Obj_ID=c.id), 102)
+        xtuml.relate(inst, _pick(mm, 'S_DT', DT_ID=a.dt), 114)
+        battr = mm.new('O_BATTR')
+        xtuml.relate(battr, inst, 106)
+        xtuml.relate(mm.new('O_DBATTR' if a.kind == 'derived' else 'O_NBATTR'), battr, 107)
+        if nxt is not None and prev is not None:
+            xtuml.unrelate(nxt, prev, 103, 'succeeds')
+        if prev is not None:
+            xtuml.relate(inst, prev, 103, 'succeeds')
+        if nxt is not None:
+            xtuml.relate(nxt, inst, 103, 'succeeds')
     else:
         raise Unsupported('no live form of %s' % name)
 
@@ -2091,4 +2187,11 @@ def live_snippet(before, op):
         for ident, fn, kind, col, rel in pairs:
             lines.append('xtuml.%s(inst, %s, %d)' % (fn, sel(kind, **{col: ident}), rel))
         return lines
+    if name == 'add_attr':
+        return ['a = m.new("O_ATTR", Name=%r, Root_Nam=%r)' % (op[3], op[3]),
+                'xtuml.relate(a, %s, 102)' % sel('O_OBJ', Obj_ID=op[1]),
+                'xtuml.relate(a, %s, 114)' % sel('S_DT', DT_ID=op[4]),
+                'b = m.new("O_BATTR"); xtuml.relate(b, a, 106)',
+                'xtuml.relate(m.new(%r), b, 107)' % ('O_DBATTR' if op[5] == 'derived' else 'O_NBATTR'),
+                '# and R103: the new attribute succeeds the attribute at position %d - 1 of the class (if any)' % op[2]]
     return ['# apply through the xtuml API on m: %r' % (op,)]
